@@ -2,7 +2,7 @@
 """saveseed.py <ID> <X> <detected:yes|no|after-strengthening> <caught-by / note>  — keeps a confirmed seeded change under /verif/seeded/<ID>-<X>/"""
 import json, os, shutil, sys
 pid, x, det, note = sys.argv[1], sys.argv[2], sys.argv[3], sys.argv[4]
-src = f'/tmp/seed/{pid}/out/{x}'
+src = f'{os.environ.get("SEEDROOT", "/tmp/seed")}/{pid}/out/{x}'
 dst = f'/verif/seeded/{pid}-{x}'
 os.makedirs(dst, exist_ok=True)
 for f in ('patch.diff', 'demo_test.go'):
